@@ -17,11 +17,14 @@ AllLists == {l \in [nums : SUBSET Numbers, ids : SUBSET Idents] : Cardinality(l.
 QuickLists == {l \in AllLists : Cardinality(l.nums) + Cardinality(l.ids) <= 1}
               \cup {[nums |-> {"A"}, ids |-> {"B"}], [nums |-> {"A"}, ids |-> {"CLAIM"}], [nums |-> {"CLAIM"}, ids |-> {"A"}],
                     [nums |-> {"F"}, ids |-> {"F"}], [nums |-> {"F"}, ids |-> {"A"}], [nums |-> {"P"}, ids |-> {"P1"}]}
+MfrModes == {"none", "exclude", "include", "both"}
+MfrList(mm) == IF mm = "none" THEN {} ELSE {"m1"}
+MfrIn(mm) == IF mm = "both" THEN {"m1", "m2"} ELSE {}        \* "both": m1 is on both lists, m2 only on the include list
 AllCfgs ==
-  {[mode |-> m, nums |-> l.nums, ids |-> l.ids, mfrMode |-> mm, mfrs |-> (IF mm = "none" THEN {} ELSE {"m1"}), netmap |-> nm] :
-     m \in {"exclude", "include"}, l \in PgnLists, mm \in {"none", "exclude", "include"}, nm \in BOOLEAN}
-  \cup {[mode |-> "none", nums |-> {}, ids |-> {}, mfrMode |-> mm, mfrs |-> (IF mm = "none" THEN {} ELSE {"m1"}), netmap |-> nm] :
-     mm \in {"none", "exclude", "include"}, nm \in BOOLEAN}
+  {[mode |-> m, nums |-> l.nums, ids |-> l.ids, mfrMode |-> mm, mfrs |-> MfrList(mm), mfrsIn |-> MfrIn(mm), netmap |-> nm] :
+     m \in {"exclude", "include"}, l \in PgnLists, mm \in MfrModes, nm \in BOOLEAN}
+  \cup {[mode |-> "none", nums |-> {}, ids |-> {}, mfrMode |-> mm, mfrs |-> MfrList(mm), mfrsIn |-> MfrIn(mm), netmap |-> nm] :
+     mm \in MfrModes, nm \in BOOLEAN}
 Unfiltered(c) == [c EXCEPT !.mode = "none", !.nums = {}, !.ids = {}]
 
 VARIABLES cfg, sF, sU, sG, window, n, outF, outU, lastClaim, fast, prevF, ev
